@@ -13,7 +13,7 @@ RULE = ("byte strings: the repository's fixture files and generated show files w
         "damaged blocks, empty blocks, both versions, with/without checksum), every prefix of the small ones, single-byte edits with "
         "values {00,01,7f,80,ff,+1,-1} (checksum refreshed for most so that the edit reaches the block parser), multi-byte random and "
         "structural mutations, random strings; each loaded as trajectory, light program, yaw control and RTH plan through a descriptor "
-        "and from memory (a fresh exact-size buffer, then one reused working buffer that held other bytes of the same length); compared: success class, block bytes, the whole query battery bit-for-bit, the battery again after clear. "
+        "(also with block bodies of 32768..65535 bytes) and from memory (a fresh exact-size buffer, then one reused working buffer that held other bytes of the same length); compared: success class, block bytes, the whole query battery bit-for-bit, the battery again after clear. "
         "Non-trivial: a file in which the block of the kind is present.")
 HARNESS_ENV = None
 
@@ -56,6 +56,18 @@ def generate(rng, tier):
         big = make_file([(3, rand_bytes(rng, 65535)), (3, rand_bytes(rng, 65535)), (1, tb), (2, program(rng)), (5, yb), (4, rp)], ver, cks)
         emit(big)
         emit(big[:-2])
+    # block bodies beyond 32 KiB (up to the largest a 16-bit length can declare): a reader that fetches in pieces must put them
+    # together in order - each loaded as its own kind through both routes
+    for n in (32768, 32769, 40000, 65535):
+        for ver, cks in ((1, False), (2, True)) if n in (32769, 65535) else ((1, False),):
+            tb, _ = traj_block(rng, nseg=3, scale=10)
+            yb, _ = yaw_block(rng, n=3)
+            rp, _, _ = plan(rng, well_formed=True)
+            lp = b"".join(bytes([4, rng.getrandbits(8), rng.getrandbits(8), rng.getrandbits(8), 1]) for _ in range(n // 5 + 1))
+            for typ, kind, head in ((1, "t", tb), (2, "l", lp), (5, "y", yb), (4, "r", rp)):
+                body = (head + rand_bytes(rng, n))[:n]
+                f = make_file([(typ, body), (3, b"tail")], ver, cks)
+                out.append((f"load2 {kind} {hx(f)}", True))
     return out
 
 
